@@ -752,6 +752,37 @@ impl<'a, T> IntoIterator for &'a Cont<T> {
     }
 }
 
+impl<T> AsMut<Cont<T>> for Cont<T> {
+    fn as_mut(&mut self) -> &mut Cont<T> {
+        self
+    }
+}
+
+impl<'a, T> IntoIterator for &'a mut Cont<T> {
+    type Item = &'a mut T;
+    type IntoIter = std::vec::IntoIter<&'a mut T>;
+    fn into_iter(self) -> Self::IntoIter {
+        match self {
+            Cont::V(c) => c.iter_mut().collect::<Vec<_>>().into_iter(),
+            Cont::B(c) => c.iter_mut().collect::<Vec<_>>().into_iter(),
+            Cont::A0(c) => c.iter_mut().collect::<Vec<_>>().into_iter(),
+            Cont::A1(c) => c.iter_mut().collect::<Vec<_>>().into_iter(),
+            Cont::A2(c) => c.iter_mut().collect::<Vec<_>>().into_iter(),
+            Cont::A3(c) => c.iter_mut().collect::<Vec<_>>().into_iter(),
+            Cont::A4(c) => c.iter_mut().collect::<Vec<_>>().into_iter(),
+            Cont::A5(c) => c.iter_mut().collect::<Vec<_>>().into_iter(),
+            Cont::A6(c) => c.iter_mut().collect::<Vec<_>>().into_iter(),
+            Cont::T1(c) => vec![&mut c.0].into_iter(),
+            Cont::T2(c) => vec![&mut c.0, &mut c.1].into_iter(),
+            Cont::T3(c) => vec![&mut c.0, &mut c.1, &mut c.2].into_iter(),
+            Cont::T4(c) => vec![&mut c.0, &mut c.1, &mut c.2, &mut c.3].into_iter(),
+            Cont::T5(c) => vec![&mut c.0, &mut c.1, &mut c.2, &mut c.3, &mut c.4].into_iter(),
+            Cont::T6(c) => vec![&mut c.0, &mut c.1, &mut c.2, &mut c.3, &mut c.4, &mut c.5].into_iter(),
+            Cont::T7(c) => vec![&mut c.0, &mut c.1, &mut c.2, &mut c.3, &mut c.4, &mut c.5, &mut c.6].into_iter(),
+        }
+    }
+}
+
 impl<T> AsRef<Cont<T>> for Cont<T> {
     fn as_ref(&self) -> &Cont<T> {
         self
